@@ -9,7 +9,7 @@ from ..tikzcheck import Picture, TikzError
 ID = "C13"
 LEVEL = "exploration"
 LEVEL_TEXT = (
-    "Random search over valid (super-)reconciliations that are not solver outputs (constructed mappings on inputs up to 10 object leaves / 6 species, "
+    "All valid reconciliations of every small input (<=4 x <=3 leaves, independent enumerator) drawn in sequence from shared tree objects, plus random search over valid (super-)reconciliations that are not solver outputs (constructed mappings on inputs up to 10 object leaves / 6 species, "
     "with and without labels, both orientations, node sizes 1-100 from a stub TeX measurer, perturbed drawing parameters): the computed layout and the "
     "generated TikZ are compared with the independent event model - one event node per object node in its mapped species and of the evaluator's kind, "
     "one loss marker per counted full loss in the species where it occurs, one transfer arrow per transfer ending at the transferred child."
@@ -19,10 +19,16 @@ LEVEL_NOTE = (
     "in that species' branch table is what the renderer draws inside the species' outline) and geometrically for the TikZ statements (positions inside "
     "a branch box of the same kind; loss markers on the trunk edge of a species holding a loss). TeX itself is replaced by a stub."
 )
-TECHNIQUE = "property-based testing: Hypothesis random valid reconciliations, layout and TikZ output vs independent event/loss model"
+TECHNIQUE = "property-based testing: bounded-exhaustive walk over all valid mappings of small inputs + Hypothesis random valid reconciliations, layout and TikZ output vs independent event/loss model"
 DESIGN_REF = "DESIGN.md section 6 (C13)"
+EXHAUSTIVE_RULE = {
+    "quick": "every plane binary input with <=3 object x <=3 species leaves and a quarter of those with 4 object leaves: ALL valid species mappings "
+             "(independent enumerator), drawn one after the other from the same tree objects, both orientations, unlabelled",
+    "thorough": "every input <=4 x <=3 leaves and an eighth of 4 x 4, ALL valid mappings each",
+}
+EXHAUSTIVE_COMPLETE = False  # the random layer is not exhaustive
 RULE = (
-    "Hypothesis cases: binary input with <=10 object / <=6 species leaves, a constructed valid species mapping (any valid event per node), optional "
+    "Walk layer (see exhaustive_layer): all valid mappings of small inputs drawn in sequence from shared tree objects.  Hypothesis cases: binary input with <=10 object / <=6 species leaves, a constructed valid species mapping (any valid event per node), optional "
     "ordered or unordered labelling, 24 drawn node sizes in [1,100] used by call position, about half of the numeric DrawParams fields perturbed in "
     "(0,50], colours on some nodes, ancestral node names of both trees blanked in about a third of the cases; both orientations per case.  Layout: each object node has exactly one non-loss branch, held by the layout of its "
     "mapped species, of the evaluator's kind; the multiset of species holding loss branches == species of the skipped edges by the independent rule; a "
@@ -48,10 +54,50 @@ def _close(a, b):
     return abs(a[0] - b[0]) <= EPS and abs(a[1] - b[1]) <= EPS
 
 
+def exhaustive(tier):
+    return [(tier, i, 32) for i in range(32)]
+
+
+def run_job(job):
+    """every plane binary input up to 3x3 leaves (quick: plus a quarter of those with 4 object leaves; thorough: all of
+    4x3 and an eighth of 4x4): ALL valid species mappings of the input are drawn one after the other from the same
+    tree objects."""
+    tier, idx, mod = job
+    from .. import gen
+
+    mo, ms = (4, 3) if tier == "quick" else (4, 4)
+    for k, base in enumerate(gen.all_inputs(mo, ms)):
+        if k % mod != idx:
+            continue
+        nobj, nsp = len(base["leaf_object_species"]), base["species_tree"].count(",") + 1
+        if tier == "quick" and nobj == 4 and (k // mod) % 4:
+            continue
+        if tier != "quick" and nsp == 4 and nobj == 4 and (k // mod) % 8:
+            continue
+        case = dict(base)
+        case["costs"] = dict(gen.DEFAULT)
+        case.update(_kind="walk", _label_kind="none", _params={}, _unnamed=(k % 3 == 0),
+                    _sizes=[[1.0 + (7 * i + k) % 23, 1.0 + (5 * i + 3 * k) % 17] for i in range(24)])
+        yield case
+
+
 def check(case):
+    if case.get("_kind") != "walk":
+        base = {k: v for k, v in case.items() if not k.startswith("_")}
+        return _check_mapping(case, Instance(base, label=False), case["_mapping"], None)
     base = {k: v for k, v in case.items() if not k.startswith("_")}
     inst = Instance(base, label=False)
-    m = case["_mapping"]
+    shared = {}
+    n = 0
+    nontrivial = False
+    for m in inst.all_mappings():
+        res = _check_mapping(dict(case, _mapping=m), inst, m, shared)
+        nontrivial = nontrivial or res.nontrivial
+        n += 1
+    return Result(nontrivial, ["walk", f"obj={len(inst.oleaves)}", f"mappings={'<=10' if n <= 10 else '<=100' if n <= 100 else '>100'}"], evals=2 * n)
+
+
+def _check_mapping(case, inst, m, shared):
     pat, counts = inst.rec_profile(m)
     kinds = {n: ("LEAF" if not inst.ochildren[n] else ("T" if k[0] == "T" else k))
              for n, k in list(zip(inst.ointernal_pre, pat)) + [(l, "LEAF") for l in inst.oleaves]}
@@ -62,7 +108,7 @@ def check(case):
             l, r = inst.ochildren[n]
             transferred.append(r if k == "TL" else l)
     for orientation in ("VERTICAL", "HORIZONTAL"):
-        out, lay, code, params, _stub = rc.compute(case, orientation)
+        out, lay, code, params, _stub = rc.compute(case, orientation, shared=shared)
         names = _stub.names
         tag = orientation.lower()
         # ---- layout -------------------------------------------------------
